@@ -154,7 +154,10 @@ def correspondence(rep, ctx):
                                             raise StopIteration
                             else:
                                 order = r.choice(["dataset", "alphabetical"])
-                                disp = "all" if r.random() < 0.6 else r.sample(list(inv.decay(0.0).contents), 1)
+                                dcont = list(inv.decay(0.0).contents)
+                                # explicit display lists of 1-3 nuclides in a random (requested) order
+                                disp = "all" if r.random() < 0.5 else r.sample(dcont, min(len(dcont), r.choice([1, 2, 3])))
+                                rep.dist("plot:display=all" if disp == "all" else f"plot:display-list-{len(disp)}")
                                 xmin = 0.0 if r.random() < 0.7 else T / 10
                                 yscale = r.choice(["linear", "log"])
                                 shared_ax.clear()
@@ -196,7 +199,10 @@ def correspondence(rep, ctx):
                             else:
                                 fail(desc, "raised ZeroDivisionError")
                         except Exception as e:  # noqa: BLE001
-                            fail(desc, f"raised {type(e).__name__}: {e}")
+                            if u.endswith("_frac") and isinstance(e, ValueError) and "NaN" in str(e):
+                                rep.inconclusive += 1     # 0/0 shares of a fully decayed inventory: outside the premise (C14)
+                            else:
+                                fail(desc, f"raised {type(e).__name__}: {e}")
         # both classes x every (xscale, yscale) combination of plot, deterministically
         for C in (rd.Inventory, rd.InventoryHP):
             for xs in ("linear", "log"):
@@ -224,6 +230,25 @@ def correspondence(rep, ctx):
                     want0 = 0.95 * float(np.min(yd)) if ys == "log" else 0.0
                     if not (kw["ylimits"][0] == want0 or same(kw["ylimits"][0], want0, 2)):
                         fail(desc, f"lower y-limit {kw['ylimits'][0]!r}, expected {want0!r}")
+        # an explicit display list is drawn in the requested order whatever `order` says (both classes)
+        for C in (rd.Inventory, rd.InventoryHP):
+            for order in ("dataset", "alphabetical"):
+                for disp in (["Y-90", "Sr-90"], ["Sr-90", "Y-90"], ["Zr-90", "Sr-90", "Y-90"], "Y-90"):
+                    inv = C({"Sr-90": 2.0e6}, "num")
+                    desc = f"{C.__name__}({{'Sr-90': 2e6}}).plot(display={disp!r}, order={order!r})"
+                    rep.case(("display-order", C.__name__, order, repr(disp)))
+                    rep.dist("plot:display-order")
+                    shared_ax.clear()
+                    inv.plot(30.0, "y", yunits="num", display=disp, order=order, npoints=3, fig=shared_fig, axes=shared_ax)
+                    kw = dict(captured)
+                    want_n = [disp] if isinstance(disp, str) else list(disp)
+                    if list(kw["nuclides"]) != want_n:
+                        fail(desc, f"curves are drawn/labelled for {list(kw['nuclides'])}, requested {want_n}")
+                        continue
+                    ref = inv.decay(kw["time_points"][1], "y").numbers()
+                    for ci, c in enumerate(want_n):
+                        if not same(kw["ydata"][ci][1], ref[c]):
+                            fail(desc, f"curve {ci} ({c}): {kw['ydata'][ci][1]!r} vs decay(t).numbers = {ref[c]!r}")
         # explicit time arrays and refusals
         inv = rd.Inventory({"Mo-99": 1e6, "Sr-90": 2e6}, "num")
         arr = np.array([0.0, 1.5, 2.25, 1000.0, 3.0])
